@@ -12,7 +12,8 @@ exampleCom    == <<Str("example"), Str("com")>>
 exampleCoUk   == <<Str("example"), Str("co"), Str("uk")>>
 notexampleOrg == <<Str("notexample"), Str("org")>>
 exampleWild   == <<Str("example"), <<42>>>>
-Hosts == <<exampleOrg, subExampleOrg, aSubExample, otherOrg, exampleCom, exampleCoUk, notexampleOrg>>
+exampleOther  == <<Str("example"), Str("other"), Str("com")>>     \* "example." followed by something that is no public suffix
+Hosts == <<exampleOrg, subExampleOrg, aSubExample, otherOrg, exampleCom, exampleCoUk, notexampleOrg, exampleOther>>
 R(e, c, p, x) == [exc |-> e, content |-> c, permDom |-> p, restDom |-> x]
 Pool == << R(FALSE, "s1", {}, {}), R(FALSE, "s2", {}, {}), R(FALSE, "s1", {}, {exampleOrg}),
            R(FALSE, "s1", {exampleOrg}, {}), R(FALSE, "s2", {exampleOrg}, {}), R(FALSE, "s3", {subExampleOrg}, {}),
